@@ -429,6 +429,8 @@ func runC14(r *Run) {
 		}
 		r.Check(okD && okEnt, "C14.1", "tmconsensus."+k+"SparseProof(decoded)", w.Pos(uf.Pos()), "decoder rebuilds height, round, pub key hash and files each entry's signatures under that entry's own block hash")
 	}
+	r.Rule("C14.5", "the encoder's output is the caller's: no Marshal* result shares the backing array of a pooled or reused bytes.Buffer (a later encode would overwrite an earlier result before it is decoded)")
+	bufferAliasing(r, "C14.5", "tm/tmcodec/tmjson", "gcrypto")
 	r.Expect("C14.1", 60, "field relation obligations")
 
 	// ---------- C14.2 struct tags
